@@ -351,6 +351,24 @@ def transforms():
     return T
 
 
+_NORMAL = [{"mean": 0.0, "std": 1e-8}, {"mean": -3.0, "std": 1e8}, {"mean": 1e6, "std": 1e-3}, {"mean": 2, "std": 3}]
+_LOGN = [{"mean": 3.0, "std": 3e-9}, {"mean": 1.0, "std": 1e-7}, {"mean": 50.0, "std": 1e-5}, {"mean": 1e-3, "std": 1.0}, {"mean": 2, "std": 1}]
+_UNI = [{"a_min": 2.0, "a_max": 3.0}, {"a_min": -0.5, "a_max": 0.5}, {"a_min": 0.0, "a_max": 1.0}, {"a_min": 0, "a_max": 1},
+        {"a_min": 2, "a_max": 3}, {"a_min": 0, "a_max": 1.0}, {"a_min": 1e6, "a_max": 1e6 + 1.0}, {"a_min": -1e-9, "a_max": 1e-9}]
+_LAP = [{"alpha": 1e-6}, {"alpha": 1e6}, {"alpha": 2}]
+FIXED = {
+    "re.normal_prior": _NORMAL, "re.NormalPrior": _NORMAL, "cl.NormalTransform": _NORMAL,
+    "re.lognormal_prior": _LOGN, "re.LogNormalPrior": _LOGN, "cl.LognormalTransform": _LOGN,
+    "re.uniform_prior": _UNI, "re.UniformPrior": _UNI,
+    "cl.UniformOperator": [{"loc": 2.0, "scale": 1.0}, {"loc": 2, "scale": 1}, {"loc": -1e-9, "scale": 2e-9}, {"loc": 1e3, "scale": 1.0}],
+    "re.laplace_prior": _LAP, "re.LaplacePrior": _LAP,
+    "cl.LaplaceOperator": [{"loc": 0, "scale": 1}, {"loc": 1e3, "scale": 1e-6}, {"loc": -2.0, "scale": 1e6}],
+    "re.invgamma_prior": [{"a": 0.5, "scale": 1e-4}, {"a": 20.0, "scale": 1e4}, {"a": 2, "scale": 1}],
+    "re.InvGammaPrior": [{"a": 0.5, "scale": 1e-4, "loc": -3.0}, {"a": 20.0, "scale": 1e4, "loc": 10.0}],
+    "cl.InverseGammaOperator": [{"alpha": 0.5, "q": 1e-4}, {"alpha": 20.0, "q": 1e4}, {"alpha": 2, "q": 1}],
+    "cl.GammaOperator": [{"alpha": 0.5, "theta": 1e-4}, {"alpha": 20.0, "theta": 1e4}],
+}
+
 GRID_N = 241        # x = -6 ... 6, step 0.05
 
 
@@ -378,6 +396,10 @@ def eval_transform(name, params, T=None):
     if bad.any():
         i = int(np.argmax(np.where(np.isfinite(y), np.abs(y - ref) / np.maximum(tol, 1e-300), np.inf)))
         fails.append(("quantile", {"x": float(x[i]), "got": float(y[i]), "expected": float(ref[i]), "tol": float(tol[i])}))
+    # the spread of the distribution (narrow priors must not collapse): where the reference resolves it
+    sp_ref, sp = float(ref[-1] - ref[0]), float(y[-1] - y[0])
+    if sp_ref > 1e-9 * float(np.max(np.abs(ref))) and not abs(sp - sp_ref) <= max(10 * t["rtol"], 1e-6) * sp_ref + 2 * t["atol"](params):
+        fails.append(("spread", {"T(6)-T(-6)": sp, "expected": sp_ref}))
     d = np.diff(y)
     # strictly increasing wherever the reference quantiles themselves are resolved in float64
     # (bounded targets saturate at their edges), never decreasing anywhere
@@ -445,10 +467,11 @@ class C30(C.Check):
         missing = [d.name for d in self.defs if d.name not in table]
         if missing:
             raise C.MachineryError("no source evaluator for generated definitions %s" % missing)
+        narrow = [(3.0, 3e-9), (1.0, 1e-7), (50.0, 1e-5), (1e-3, 1e3)]     # (mean, std): narrow and wide log-normals
         for d in self.defs:
             sampler, src = table[d.name]
-            for k in range(n_per):
-                args = tuple(sampler(rng))
+            for k in range(n_per + (len(narrow) if "lognormal_log" in d.name else 0)):
+                args = tuple(sampler(rng)) if k < n_per else narrow[k - n_per]
                 try:
                     got = src(*args)
                     err = None
@@ -512,6 +535,8 @@ class C30(C.Check):
         for c in ctx.corpus():
             cases.append((c["transform"], c["params"]))
         for name in sorted(T):
+            for fp in FIXED.get(name, []):            # extreme but legal parameters, float-vs-int bounds: every run
+                cases.append((name, dict(fp)))
             for k in range(n_inst):
                 cases.append((name, T[name]["sample"](rng)))
         for name, params in cases:
